@@ -10,7 +10,7 @@ Domain: `LeafPatternsNonEmpty` — no stored pattern is the empty string.  It ho
 rule can produce; at the raw tree API the empty pattern is a real anomaly (DESIGN §6-O3):
 `cache_visible_empty_pattern` is the kernel-checked witness.
 -/
-import RioModel.Proofs.TreeHistory
+import RioModel.Proofs.TreeCacheSim
 import RioModel.Proofs.RegexTok
 import RioModel.Props.C08
 set_option linter.unusedSimpArgs false
@@ -76,35 +76,56 @@ theorem observations_cache (E : Engine) (t : Item ι V) (limit : Nat) (level : O
 
 /-! ### Interleaved with updates -/
 
-def isCacheOp : Op ι V → Bool
-  | .cache _ _ => true
-  | _ => false
+/-- **Transparency over histories, exact.**  For *every* history over {insert, remove, retain, cache} whose
+inserted patterns are non-empty – no other hypothesis: any strings as patterns, ids re-used at will – the
+history and the same history with every `cache` call removed (`dropCache`) both run to completion (no
+`cache` call underflows or loops), the two final trees are equal up to `compiled` flags, both satisfy the
+invariant, and they give identical `find` answers for every haystack, identical `get`, `len` and
+contents.  Since `dropCache` is idempotent and forgets limits, levels, number and position of the
+cache calls, any two ways of interleaving warm-ups with the same updates are observationally identical. -/
+theorem cache_transparent (E : Engine) (ic : Bool) (ops : List (Op ι V))
+    (hne : ∀ p ∈ insertedPats ops, p ≠ []) :
+    ∃ t t0 : Item ι V, treeRun E (.empty ic) ops = some t ∧
+      treeRun E (.empty ic) (dropCache ops) = some t0 ∧
+      t.strip = t0.strip ∧ Inv ic t ∧ Inv ic t0 ∧
+      (∀ s, t.find E s = t0.find E s) ∧ t.contents = t0.contents ∧ (∀ p, t.get p = t0.get p) ∧
+      t.len = t0.len := by
+  obtain ⟨t, t0, h1, h2, hs⟩ := run_drop_cache E ops (.empty ic : Item ι V) (.empty ic) rfl
+  obtain ⟨hinv, hP⟩ := run_reachable E (fun p => p ≠ []) ops (.empty ic : Item ι V) (inv_empty ic)
+    (by simp) hne t h1
+  have hinv0 : t0.inv ic = true := by rw [← inv_strip, ← hs, inv_strip]; exact hinv
+  have hP0 : ∀ e ∈ t0.contents, e.pat ≠ [] := by rw [← contents_strip, ← hs, contents_strip]; exact hP
+  refine ⟨t, t0, h1, h2, hs, hinv, hinv0, fun s => ?_, ?_, fun p => ?_, ?_⟩
+  · rw [← find_strip E t hinv hP s, hs, find_strip E t0 hinv0 hP0 s]
+  · rw [← contents_strip, hs, contents_strip]
+  · rw [← get_strip, hs, get_strip]
+  · rw [← len_strip, hs, len_strip]
 
 theorem refRun_drop_cache (L : List (Entry ι V)) (ops : List (Op ι V)) :
-    refRun L (ops.filter fun o => !isCacheOp o) = refRun L ops := by
+    refRun L (dropCache ops) = refRun L ops := by
   induction ops generalizing L with
   | nil => rfl
-  | cons op ops ih => cases op <;> simp [refRun, refStep, isCacheOp, ih]
+  | cons op ops ih => cases op <;> simp [dropCache, refRun, refStep, ih]
 
 theorem histOk_drop_cache (good : List Char → Bool) (L : List (Entry ι V)) (ops : List (Op ι V)) :
-    histOk good L (ops.filter fun o => !isCacheOp o) = histOk good L ops := by
+    histOk good L (dropCache ops) = histOk good L ops := by
   induction ops generalizing L with
   | nil => rfl
-  | cons op ops ih => cases op <;> simp [histOk, refStep, isCacheOp, ih]
+  | cons op ops ih => cases op <;> simp [dropCache, histOk, refStep, ih]
 
-/-- **Transparency over histories.**  Take any history in the domain of C08 and the same history with
-every `cache` call removed (any limits, any levels, any number of calls, anywhere between updates).
-Both run to completion, and the two trees give the same `find` answers (as multisets), the same `len`
-and the same `get`. -/
+/-- Transparency relative to the *specification*: for a history in the domain of C08, the history and its
+cache-free twin both answer `find` with the linear scan of the same live entries (a corollary of
+`history_spec`; `cache_transparent` above is stronger on the tree-vs-tree comparison and needs no
+domain). -/
 theorem cache_transparent_history {E : Engine} {Good : List Char → Prop} (hPS : PrefixSound E Good)
     {good : List Char → Bool} (hgood : ∀ p, good p = true → Good p ∧ p ≠ [])
     (ic : Bool) (ops : List (Op ι V)) (hok : histOk good [] ops = true) :
     ∃ t t0 : Item ι V, treeRun E (.empty ic) ops = some t ∧
-      treeRun E (.empty ic) (ops.filter fun o => !isCacheOp o) = some t0 ∧
+      treeRun E (.empty ic) (dropCache ops) = some t0 ∧
       (∀ s, (t.find E s).Perm (t0.find E s)) ∧ t.len = t0.len ∧ (∀ p, (t.get p).Perm (t0.get p)) := by
   obtain ⟨t, h1, _, _, hf, hl, hg⟩ := history_spec hPS hgood ic ops hok
   obtain ⟨t0, h2, _, _, hf0, hl0, hg0⟩ :=
-    history_spec hPS hgood ic (ops.filter fun o => !isCacheOp o) (by rw [histOk_drop_cache]; exact hok)
+    history_spec hPS hgood ic (dropCache ops) (by rw [histOk_drop_cache]; exact hok)
   rw [refRun_drop_cache] at hf0 hl0 hg0
   exact ⟨t, t0, h1, h2, fun s => (hf s).trans (hf0 s).symm, by rw [hl, hl0],
     fun p => (hg p).trans (hg0 p).symm⟩
@@ -113,7 +134,7 @@ theorem cache_transparent_history {E : Engine} {Good : List Char → Prop} (hPS 
 theorem cache_transparent_history_rule (G : List Char → Option Re) (ic : Bool) (ops : List (Op ι V))
     (hok : histOk rulePatB [] ops = true) :
     ∃ t t0 : Item ι V, treeRun (engineOf G) (.empty ic) ops = some t ∧
-      treeRun (engineOf G) (.empty ic) (ops.filter fun o => !isCacheOp o) = some t0 ∧
+      treeRun (engineOf G) (.empty ic) (dropCache ops) = some t0 ∧
       (∀ s, (t.find (engineOf G) s).Perm (t0.find (engineOf G) s)) ∧ t.len = t0.len ∧
       (∀ p, (t.get p).Perm (t0.get p)) :=
   cache_transparent_history (prefix_sound G) (fun p hp => (rulePatB_iff p).1 hp) ic ops hok
@@ -125,24 +146,40 @@ def FindCacheAllPatterns : Prop :=
   ∀ (t t' : Item Nat Nat) (limit n : Nat) (level : Option Nat) (s : List Char), Inv false t →
     treeCache stdEngine t limit level = some (t', n) → t'.find stdEngine s = t.find stdEngine s
 
+/-- The tree with the single pattern `""`. -/
+def emptyPatTree : Item Nat Nat := (Item.empty false).insert [] 1 1
+
 set_option maxRecDepth 100000 in
 /-- Raw tree API, pattern `""`: uncached it matches every haystack, cached (`^$`) only the empty one. -/
 theorem cache_visible_empty_pattern : ¬ FindCacheAllPatterns := by
   intro h
-  have := h ((Item.empty false).insert [] 1 1) (.leaf ⟨[], true, false, true⟩ [(1, 1)]) 5 4 none "x".toList
-    (by decide +kernel) (by decide +kernel)
-  exact absurd this (by decide +kernel)
+  have hbefore : emptyPatTree.find stdEngine "x".toList = [1] := by decide +kernel
+  have hafter : (treeCache stdEngine emptyPatTree 5 none).map (fun r => r.1.find stdEngine "x".toList)
+      = some [] := by decide +kernel
+  cases hc : treeCache stdEngine emptyPatTree 5 none with
+  | none => rw [hc] at hafter; simp at hafter
+  | some r =>
+    have h1 := h emptyPatTree r.1 5 r.2 none "x".toList (by decide +kernel) (by rw [hc])
+    rw [hc] at hafter
+    simp only [Option.map_some, Option.some.injEq] at hafter
+    rw [hafter, hbefore] at h1
+    exact absurd h1 (by decide)
 
 /-! ### Non-vacuity -/
 
+/-- A three-pattern case-insensitive tree. -/
+def demoTree : Item Nat Nat :=
+  (((Item.empty true).insert "/a(?:x)/b".toList 2 20).insert "/a(?:x)".toList 1 11).insert
+    "/b(?:[0-9]+)".toList 3 30
+
 set_option maxRecDepth 100000 in
-/-- A three-pattern tree, partially cached (`limit = 2` of 4 regexes): the hypotheses of `find_cache`
-hold and the cached tree is really different from the uncached one. -/
-example :
-    let t : Item Nat Nat := (((Item.empty true).insert "/a(?:x)/b".toList 2 20).insert "/a(?:x)".toList 1 11).insert
-      "/b(?:[0-9]+)".toList 3 30
-    Inv true t ∧ (∀ e ∈ t.contents, e.pat ≠ []) ∧
-      (∃ t' n, treeCache stdEngine t 2 none = some (t', n) ∧ t'.cachedLen = 2 ∧ t.cachedLen = 0 ∧ n = 0) := by
+/-- The hypotheses of `find_cache` hold on it, and partially caching it (`limit = 2` of its 4 regexes)
+really changes the tree: 2 regexes compiled, budget used up. -/
+example : Inv true demoTree ∧ (demoTree.contents.all fun e => !e.pat.isEmpty) = true ∧
+    demoTree.cachedLen = 0 ∧
+    (treeCache stdEngine demoTree 2 none).map (fun r => (r.1.cachedLen, r.2)) = some (2, 0) ∧
+    (treeCache stdEngine demoTree 2 none).map (fun r => r.1.find stdEngine "/A7".toList) = some [] ∧
+    (treeCache stdEngine demoTree 2 none).map (fun r => r.1.find stdEngine "/B7".toList) = some [30] := by
   decide +kernel
 
 end Rio.C12
